@@ -352,7 +352,9 @@ def flatten_init_ref(self, subspec=T, init=list):
 
 def register_op_ref(self, op_name, auto_func=None, exact=False):
     """register_op: a new operation gets, for every already known type, the auto-discovered handler (callable or False); unless exact every
-    known type is filed in the new op's tree"""
+    known type is filed in the new op's tree -- in a DETERMINISTIC order (by type name, like the handler loop): the tree's sibling order decides
+    which of two unrelated matching types wins (C13), so it must not depend on the iteration order of a set of type objects, which follows
+    their memory addresses and differs from process to process"""
     if not isinstance(op_name, str):
         raise TypeError(f'expected op_name to be a text name, not: {op_name!r}')
     if auto_func is None:
@@ -373,7 +375,7 @@ def register_op_ref(self, op_name, auto_func=None, exact=False):
             raise TypeError('expected handler for op "%s" to be callable or False, not: %r' % (op_name, handler))
         type_map[t] = handler
     if not exact:
-        for t in known_types:
+        for t in sorted(known_types, key=lambda t: t.__name__):
             self._register_fuzzy_type(op_name, t, _type_tree=type_tree)
     self._op_type_map[op_name] = type_map
     self._op_type_tree[op_name] = type_tree
